@@ -209,6 +209,14 @@ example (c : Cell) (key : Nat → Option Nat) (bs : Bytes)
         first | rfl | decide | (intro h; omega) | (simp; done))
   trivial
 
+/-- `serialize_canonical` instantiated: the same cell presented with the leaf duplicated (`exDup`, rows 1 and 2) and
+with the leaf shared (`exShared`) is serialised to the same bytes. -/
+example (idx crc cache : Bool) : ∃ bs,
+    Order.serializeBocModel Order.exDup (fun i => some (if i = 2 then 1 else i)) [0] idx crc cache = .ok bs ∧
+    Order.serializeBocModel Order.exShared (fun i => some i) [0] idx crc cache = .ok bs :=
+  serialize_canonical Order.exDup Order.exShared [0] [0] _ _ idx crc cache Order.exDup_valid Order.exShared_valid
+    Order.exDup_key Order.exShared_key Order.exDup_exShared_keys Order.exDup_exShared_roots
+
 /-- The hypotheses of `order_valid` / `roundtrip_go_writer` are satisfiable by a table with sharing (the root refers
 twice to the same child), keyed by the row number. -/
 example : ∃ (t : Table) (roots : List Nat) (key : Nat → Option Nat),
